@@ -77,6 +77,15 @@ type sys struct {
 
 func newSys(c cfg) *sys {
 	s := &sys{c: c}
+	s.init()
+	return s
+}
+
+// init (re-)initialises the mixer with fresh input iterators over the same sequences: Init must discard
+// whatever state an earlier use left in the Mixer value
+func (s *sys) init() {
+	c := s.c
+	s.p1, s.p2, s.g = 0, 0, nil
 	var i1, i2 iterable.Iterator[int]
 	switch c.kind {
 	case 0:
@@ -105,7 +114,6 @@ func newSys(c cfg) *sys {
 		i1, i2 = r1, r2
 	}
 	s.m.Init(selectors[c.sel].f, i1, i2)
-	return s
 }
 
 func (s *sys) modelNext() (int, bool) {
@@ -153,6 +161,8 @@ func (s *sys) apply(o byte) (sig, detail string) {
 		if ok != wok || (ok && v != wv) || (!ok && v != 0) {
 			return "next", fmt.Sprintf("Next()=(%d,%v), reference merge gives (%d,%v)", v, ok, wv, wok)
 		}
+	case 'I':
+		s.init()
 	case 'R':
 		err := s.m.Reset()
 		if s.c.kind == 2 || s.c.kind == 3 {
@@ -230,7 +240,7 @@ func main() {
 							if s.dead {
 								return s.key(), nil, nil
 							}
-							return s.key(), []byte{'H', 'N', 'R'}, nil
+							return s.key(), []byte{'H', 'N', 'R', 'I'}, nil
 						},
 					}
 					st, found := bfs.Explore(sp)
@@ -255,6 +265,6 @@ done:
 	run.Finish(ev.Coverage{
 		"states": states, "transitions": trans, "traces_validated_against_impl": trans, "samples": samples.List,
 		"exhaustive": fix, "fixpoint": fix, "configurations": cfgs,
-		"rule": fmt.Sprintf("for every pair of input sequences of length <= %d over {1,2,3} (sorted and unsorted), every selector in {<, <=, always-first, always-second, >} and every source kind (harness iterators, WrapIntSlice, first/second input not resettable, first/second input whose last element vanishes between HasNext and Next): BFS over all call patterns of {HasNext(x2), Next, Reset} to a fixpoint of (mixer selector state, look-ahead flags, source positions, model positions); oracle: two-pointer reference merge, HasNext idempotent and equal to the ok of the following Next, Reset restarts", maxLen),
+		"rule": fmt.Sprintf("for every pair of input sequences of length <= %d over {1,2,3} (sorted and unsorted), every selector in {<, <=, always-first, always-second, >} and every source kind (harness iterators, WrapIntSlice, first/second input not resettable, first/second input whose last element vanishes between HasNext and Next): BFS over all call patterns of {HasNext(x2), Next, Reset, Init again on the used Mixer value} to a fixpoint of (mixer selector state, look-ahead flags, source positions, model positions); oracle: two-pointer reference merge, HasNext idempotent and equal to the ok of the following Next, Reset restarts", maxLen),
 	})
 }
